@@ -81,6 +81,9 @@ def gen(rng):
                     ls.append(("deva", "dflt"))
             if mode == "all+lang" and "latn" in tags:
                 ls.append(("latn", "TRK "))
+            if mode == "all+lang" and "dev2" in tags:
+                # one Unicode script declared under both of its OpenType tags with DIFFERENT language lists
+                ls += rng.choice([[("deva", "MAR "), ("deva", "NEP ")], [("dev2", "MAR ")], [("dev2", "NEP "), ("deva", "MAR ")]])
     fea = "".join("languagesystem %s %s;\n" % sl for sl in ls)
     return {"glyphs": glyphs, "kerning": kerning, "features": fea, "languagesystems": ls, "mode": mode, "lib": lib,
             "exported_script_tags": sorted(set(tags) | ({"deva"} if "dev2" in tags else set()))}
@@ -115,6 +118,15 @@ def explore(ctx):
         g_obs = G.lst([G.tup(G.s(t), G.lst([G.s(f) for f in fs], "str")) for t, fs in obs], "(str * list str)")
         cases.append((g_i, g_obs))
         meta.append(dict(case, observed={t: fs for t, fs in obs}, plain=plain))
+        # every language system of a script exposes the same generated features as that script's default one
+        # (judged where the default one is complete: the incomplete default is what the Coq predicate / F6 are about)
+        for t, langs in sc.items():
+            dset = set(f for f in langs.get("dflt", []) if f in GEN)
+            for lg, fs in langs.items():
+                if lg != "dflt" and set(f for f in fs if f in GEN) != dset:
+                    ctx.spec_failure(dict(case, script=t, language=lg, default=sorted(dset), this=sorted(set(fs) & set(GEN))),
+                                     "language system %s/%s exposes generated features %r, the script's default language system %r" % (
+                                         t, lg.strip(), sorted(set(fs) & set(GEN)), sorted(dset)))
         ctx.count()
         ctx.klass("languagesystems:" + desc["mode"])
         if desc["lib"]:
